@@ -371,6 +371,14 @@ def rule_no_write(ctx: Ctx) -> None:  # noqa: C901, PLR0915
             ok = bool(vn) and not any(v in cfg.reachable_from(w0) for v in vn) and w0 not in cfg.reachable_from(ENTRY, without=vn | infeasible)
         else:
             ok = bool(vn) and all(cfg.dominates(v, w0) for v in vn)
+            if not vn and val not in P.functions:
+                # the helper no longer exists (inlined into create): its rejections are then statements of create itself - they must
+                # come before the write; which of create's rejections were the helper's is not decided
+                own = [n_ for n_ in cfg.nodes(lambda s_: isinstance(s_, ast.If) and any(isinstance(x, ast.Raise) for x in ast.walk(s_))) if cfg.dominates(n_, w0) or True]
+                late = [n_ for n_ in own if n_ in cfg.reachable_from(w0) and not cfg.dominates(n_, w0)]
+                ctx.add("3-no-write", create, cfg.stmt[w0], None if not late else False, f"UNDECIDED: {val.rsplit('.', 1)[-1]} does not exist any more (inlined?); {len(own)} rejection(s) of create itself, none after the first write" if not late else
+                        f"a rejection of RunInfo.create (`{norm(cfg.stmt[late[0]].test)[:50]}`) only runs after the run folder was written", key=f"before-write {val.rsplit('.', 1)[-1]}")
+                continue
         ctx.add("3-no-write", create, cfg.stmt[w0], ok, f"{val.rsplit('.', 1)[-1]} runs before the first write to the run folder" if ok else f"the run folder is written before {val.rsplit('.', 1)[-1]} has accepted the request", key=f"before-write {val.rsplit('.', 1)[-1]}")
     cfg_p = ctx.cfg(prep)
     writes_p = effect_nodes(prep, cfg_p, FS_WRITE, set())
